@@ -152,7 +152,9 @@ impl<'a> World<'a> {
             pad_owners: (0..2).map(|i| data::bls_key(s, 100 + i)).collect(),
             // colliding runs: the transaction sets belong to the scratchpad owners (same record keys)
             tx_owners: (0..2).map(|i| data::bls_key(s, if plan.collide { 100 } else { 200 } + i)).collect(),
-            reg_owners: (0..2).map(|i| data::bls_key(s, 300 + i)).collect(),
+            reg_owners: (0..2)
+                .map(|i| if i == 0 && plan.big_registers { data::big_register_owner() } else { data::bls_key(s, 300 + i) })
+                .collect(),
             writer: data::bls_key(s, 400),
             stranger: data::bls_key(s, 401),
             rewards,
@@ -500,12 +502,44 @@ impl<'a> World<'a> {
                         data::register_op(&base, *id, &sk)
                     })
                     .collect();
-                let reg = data::register_with_ops(&base, &ops);
+                let mut ops = ops;
+                if self.plan.big_registers && d.who % 2 == 0 {
+                    // a share of the owner's pre-signed block: deliveries overlap in most of it and differ in the tail,
+                    // so two of them hold more than half the entry limit each while their union stays below it
+                    let n = 505 + 3 * (d.counter as u32 % 6);
+                    ops.extend(data::big_block(&base, n));
+                    self.rep.probe("big_register_delivered");
+                }
+                // 6: another owner-signed base for the same address; only meaningful against a held register
+                let other_base = d.items.iter().any(|i| i.1 == 6) && matches!(&prior, Some(Stored::Reg(_)));
+                let reg = if other_base {
+                    let owner = self.reg_owners[d.who as usize % 2].clone();
+                    let b2 = data::base_register(&owner, Self::reg_meta(d.who % 2), &[self.stranger.public_key()], false);
+                    let ops2: Vec<RegisterOp> = d.items.iter().map(|(id, _)| data::register_op(&b2, 500 + *id, &self.stranger)).collect();
+                    assert!(b2.address() == base.address());
+                    all_permitted = false;
+                    self.rep.probe("register_on_other_base_delivered_to_held_register");
+                    data::register_with_ops(&b2, &ops2)
+                } else {
+                    data::register_with_ops(&base, &ops)
+                };
                 let v = match &proof {
                     Some(p) => data::register_paid_value(&reg, p),
                     None => data::register_value(&reg),
                 };
-                let rule = if !all_permitted {
+                let rule = if other_base {
+                    Decision::Reject {
+                        prop: "C07",
+                        rule: "register_with_unpermitted_op_stored",
+                        // the lagging-index finding: a held register whose first write is not yet acknowledged is
+                        // not "present" for validate_and_store_register, whatever arrives then replaces it
+                        why: if self.host.store().verif_contains(&RecordKey::new(&true_key)) {
+                            "other_base_same_address".into()
+                        } else {
+                            "other_base_same_address_while_held_copy_unindexed".into()
+                        },
+                    }
+                } else if !all_permitted {
                     Decision::Reject {
                         prop: "C07",
                         rule: "register_with_unpermitted_op_stored",
@@ -953,9 +987,19 @@ impl<'a> World<'a> {
                             format!("delivery {} ({kindn}) was accepted (Ok) and carries the newest valid version, but the node still serves the previous state", f.n),
                         );
                     } else if same_as(self, &prior) {
-                        // refusing a valid delivery is not a violation of the statements; recorded
+                        // C07: the stored set is the union of ALL validly signed items delivered, the stored pad the
+                        // highest validly signed version delivered: a valid delivery of a mutable record that changes
+                        // nothing breaks that clause. (C03/C04 do not oblige a node to take a chunk.)
                         self.rep.probe("valid_delivery_not_stored");
                         self.rep.log(format!("  note: delivery {} expected to be stored but the store is unchanged (result {result:?})", f.n));
+                        if f.d.kind != 0 {
+                            self.rep.violate(
+                                "C07",
+                                "valid_delivery_not_stored",
+                                &[("kind", kindn.clone()), ("entry", entry.clone()), ("config", self.plan.mode.clone())],
+                                format!("delivery {} ({kindn}, entry {entry}) carries validly signed content the node does not hold, but the stored record is unchanged (result {result:?})", f.n),
+                            );
+                        }
                     } else {
                         self.rep.violate(
                             "C07",
